@@ -25,7 +25,7 @@ ASSUMPTIONS = [
     "float noise moved the raw ratio across the 1.1 clamp edge; the edge at 1.0 is continuous",
 ]
 REQUIRED = {"all": ["pairs:respell", "pairs:omega_respell", "pairs:reverse", "pairs:invert", "nontrivial_kappa",
-                    "nontrivial_scd", "nontrivial_omega", "every_residue_seen"]}
+                    "nontrivial_scd", "nontrivial_omega", "every_residue_seen", "longer_than_400"]}
 LP = {"quick": 8, "thorough": 10}
 NRANDOM = {"quick": 400, "thorough": 5000}
 HI = {"quick": 120, "thorough": 300}
@@ -54,6 +54,8 @@ def cases(tier, seed):
                 pat = [1] * few + [-1] * many + [0] * z
                 rng.shuffle(pat)
                 yield {"k": "seq", "s": gen.spell(rng, pat), "o": rng.randrange(1 << 30)}
+    for n in (450, 700) if tier == "quick" else (450, 700, 1001, 1300):
+        yield {"k": "seq", "s": gen.rand_seq(rng, "idp", lo=n, hi=n)[:n], "o": rng.randrange(1 << 30)}
     for i in range(NRANDOM[tier]):
         yield {"k": "seq", "s": gen.rand_seq(rng, hi=HI[tier] if i % 4 == 0 else 50), "o": rng.randrange(1 << 30)}
 
@@ -118,6 +120,16 @@ def judge(case, rep, S):
     if len(_seen) == 20:
         rep.cnt("every_residue_seen")
     which = ALL5 if len(base) <= 200 else ("kappa", "delta", "deltaMax", "Omega")
+    if len(base) > 400:
+        # very long chains: delta alone (the delta-max search would dominate the run)
+        rep.cnt("longer_than_400")
+        for name, t in (("reverse", base[::-1]), ("invert", invert(base)), ("respell", gen.respell(rng, base))):
+            a, b = S["SP"](base).get_delta(), S["SP"](t).get_delta()
+            rep.cnt("pairs:" + name)
+            if not M.close(a, b):
+                rep.viol("%s:delta" % name, "delta changes under %s for a %d-residue chain: %r vs %r" % (name, len(base), a, b),
+                         sig={"transform": name, "getter": "delta"})
+        return
     bv = getters(S, base, which)
     if bv["kappa"] != -1:
         rep.cnt("nontrivial_kappa")
